@@ -46,7 +46,7 @@ add("C02",
     technique="explicit-state BFS over operation histories of the real commands with canonical-state de-duplication",
     design_ref="DESIGN.md §4.1, §5 C02",
     level_text="Breadth-first search to depth 3 (quick) / 4 (thorough) over {backup of an evolving source, backup through a stale handle, "
-               "forget of every non-empty subset, prune with 10/24 option vectors, clock ticks of 1 h and 24 h, duplicated index file, reversed listing} "
+               "forget of every non-empty subset, prune with 10/25 option vectors (incl. early index deletion), forget+prune at once through `ignore_snaps`, clock ticks of 1 h and 24 h, duplicated index file, reversed listing} "
                "from three initial repository states (empty; two snapshots one forgotten; plus an unreferenced pack). Every transition runs the real command on fresh handles; "
                "in every distinct canonical state all live snapshots are read back through the API and through an independent decoder and compared with the source model, "
                "marked packs must exist, and (thorough) check --read-data must be clean.",
@@ -168,7 +168,7 @@ add("C15",
     level="model_checking",
     technique="explicit-state BFS over sequences of all public mutating operations with a call-recording store",
     design_ref="DESIGN.md §4.1, §5 C15",
-    level_text="Breadth-first search (depth 3 quick / 4 thorough) from an append-only and a normal repository over every public mutating operation: backup, forget, prune with 10/24 option vectors, repair index (default/read-all), "
+    level_text="Breadth-first search (depth 3 quick / 4 thorough) from an append-only and a normal repository over every public mutating operation: backup, forget, prune with 10/25 option vectors (incl. early index deletion), forget+prune at once through `ignore_snaps`, repair index (default/read-all), "
                "repair snapshots (delete/keep), rewrite (forget/keep x snapshot modification/tree rewrite), save snapshots, merge, copy-into, seven config changes, toggling append-only, key add/delete - each also with its dry-run flag "
                "(prune: plan only) - plus the environment step 'lose a data pack'. The store records every backend call: in append-only mode every snapshot, index and pack file present before an operation must be present byte-identically afterwards; "
                "an operation that reports the append-only error must have issued zero mutating calls; every dry run must issue zero mutating calls and leave the store unchanged.",
